@@ -144,3 +144,17 @@ package sftp
 //@   requires fm & ^(os.ModeType | os.ModePerm | os.ModeSetuid | os.ModeSetgid | os.ModeSticky) == 0
 //@   requires fm & os.ModeType == os.ModeDir || fm & os.ModeType == 0 || fm & os.ModeType == os.ModeSymlink || fm & os.ModeType == os.ModeNamedPipe || fm & os.ModeType == os.ModeSocket || fm & os.ModeType == os.ModeDevice || fm & os.ModeType == os.ModeDevice | os.ModeCharDevice
 //@   ensures toFileMode(fromFileMode(fm)) == fm
+
+// ---------------------------------------------------------------------------
+// client connection (conn.go)
+
+//@ func (*clientConn).sendPacket
+//@   property C20, C03, C04
+//@   results typ, data, err
+//@   channel global:type:sftp.result invariant m.err == nil ==> len(m.data) >= 4
+//@   ensures err == nil ==> len(data) >= 4
+
+//@ func (context.Context).Err
+//@   trusted
+//@   ensures result != nil
+// (the only call site in the package follows a receive from ctx.Done(); after Done fires Err is non-nil by the context contract)
